@@ -180,14 +180,65 @@ Fixpoint replay_ops (ix : tix) (l : list (rop * rres * list snap_row)) : bool :=
       rres_eqb r' r && list_eqb row_eqb (snap_from 0 ix') sn && replay_ops ix' tl
   end.
 
+(* ---- end-to-end sessions: the USERS of the index on a real server (cursor provider / newCursor /
+   cursor close, partition.Service.Write, Truncate, DESCRIBE PARTITION, SHOW PARTITIONS), one client,
+   operation after operation.  Every operation is one client procedure of the model, run by its own
+   actor with the same mstep_f: to its end (hold = false: the actor is idle again), or, for a query
+   whose cursor stays in the provider's cache, until it holds its partitions (hold = true: CHold;
+   a later step (i, false) is the cursor's close).  The order-oracle value is irrelevant here (the
+   table after the whole operation does not depend on the visiting order).  The table read
+   through the hook after the operation is compared. ---- *)
+Definition sess_done (hold : bool) (a : actor) : bool :=
+  match a_ctl a, hold with
+  | CHold _, true => true
+  | CIdle, false => match a_prog a with [] => true | _ => false end
+  | _, _ => false
+  end.
+
+Fixpoint run_to (fuel : nat) (s : state) (i : nat) (hold : bool) : option state :=
+  match fuel with
+  | O => None
+  | S k =>
+      let '(s', r) := mstep_f s i 0 in
+      match r with
+      | Moved =>
+          if s_panic s' then None
+          else match nth_error (s_acts s') i with
+               | Some a => if sess_done hold a then Some s' else run_to k s' i hold
+               | None => None
+               end
+      | _ => None     (* a retry or nothing to do: a single client never waits *)
+      end
+  end.
+
+Definition sess_step := (nat * bool * option (list snap_row))%type.
+
+Fixpoint replay_sess (s : state) (l : list sess_step) : bool :=
+  match l with
+  | [] => true
+  | (i, hold, sn) :: tl =>
+      match run_to 400 s i hold with
+      | Some s' => snap_ok sn s' && replay_sess s' tl
+      | None => false
+      end
+  end.
+
+(* the table of a server on which all activity has stopped (C14_balanced: every count is zero and
+   nothing is exclusive in a state where every actor has finished) *)
+Definition quiet_row (r : snap_row) : bool := let '(_, _, rd, ex) := r in Z.eqb rd 0 && negb ex.
+
 Inductive case :=
 | KRun (pre : nat) (progs : list (list proc)) (evs : list group)
-| KOps (pre : nat) (l : list (rop * rres * list snap_row)).
+| KOps (pre : nat) (l : list (rop * rres * list snap_row))
+| KSess (progs : list (list proc)) (l : list sess_step)
+| KQuiet (rows : list snap_row).
 
 Definition check (c : case) : bool :=
   match c with
   | KRun pre progs evs => replay [init (ix_pre pre) progs] evs
   | KOps pre l => replay_ops (ix_pre pre) l
+  | KSess progs l => replay_sess (init [] progs) l
+  | KQuiet rows => forallb quiet_row rows
   end.
 
 Definition mismatches (l : list case) : list nat := mismatches_of check l.
